@@ -208,8 +208,12 @@ func scanEngine(prop, tier string, rng *rand.Rand, replay []json.RawMessage) (*E
 				Class: obsClass(scans[k].Spec, &scans[k].Obs, "hist:"+c.Hist.Shape)})
 		}
 	}
-	if v := comparePairs(pairs); len(v) > 0 {
-		res.Extra["violations"] = v
+	viol := comparePairs(pairs)
+	if prop == "C06" || prop == "SCAN" {
+		viol = append(viol, hypothesisViolations(cases)...)
+	}
+	if len(viol) > 0 {
+		res.Extra["violations"] = viol
 	}
 	if len(pairs) > 0 {
 		res.Extra["metamorphic_pairs"] = len(pairs)
@@ -330,4 +334,50 @@ func maxf(a, b float64) float64 {
 		return a
 	}
 	return b
+}
+
+// hypothesisViolations: C06's theorems (and the property itself: "every threshold triple accepted by validation") rest on
+// 0 < lower < upper < scale-up and 0 <= slow <= fast; the real ValidateNodeGroup is what establishes them.  Every generated group
+// configuration is put to the real validator: accepted although a hypothesis fails = the bands are no longer what C06 describes.
+func hypothesisViolations(cases []genCase) []interface{} {
+	out := []interface{}{}
+	seen := map[string]bool{}
+	check := func(s *scanSpec) {
+		for _, g := range s.Groups {
+			o := g.Opts
+			okHyp := 0 < o.TaintLowerCapacityThresholdPercent && o.TaintLowerCapacityThresholdPercent < o.TaintUpperCapacityThresholdPercent &&
+				o.TaintUpperCapacityThresholdPercent < o.ScaleUpThresholdPercent && 0 <= o.SlowNodeRemovalRate && o.SlowNodeRemovalRate <= o.FastNodeRemovalRate
+			if okHyp {
+				continue
+			}
+			key := fmt.Sprint(o.TaintLowerCapacityThresholdPercent, o.TaintUpperCapacityThresholdPercent, o.ScaleUpThresholdPercent, o.SlowNodeRemovalRate, o.FastNodeRemovalRate, o.MinNodes, o.MaxNodes)
+			if seen[key] {
+				continue
+			}
+			seen[key] = true
+			// complete the other mandatory options so that only thresholds / rates can be the reason for a refusal
+			v := o
+			if v.CloudProviderGroupName == "" {
+				v.CloudProviderGroupName = "asg"
+			}
+			v.SoftDeleteGracePeriod, v.HardDeleteGracePeriod, v.ScaleUpCoolDownPeriod = "5m", "10m", "10m"
+			v.MaxNodeAge, v.TaintEffect = "", ""
+			if !(v.MinNodes == 0 && v.MaxNodes == 0) && !(0 <= v.MinNodes && v.MinNodes < v.MaxNodes) {
+				v.MinNodes, v.MaxNodes = 1, 10
+			}
+			if problems := controller.ValidateNodeGroup(v); len(problems) == 0 {
+				sp, _ := json.Marshal(s)
+				out = append(out, map[string]interface{}{"kind": "C06 hypothesis: start-up validation accepts thresholds / removal rates outside 0 < lower < upper < scale-up, 0 <= slow <= fast",
+					"options": v, "cases": []json.RawMessage{sp}})
+			}
+		}
+	}
+	for _, c := range cases {
+		if c.Single != nil {
+			check(c.Single)
+		} else if c.Hist != nil && c.Hist.Init != nil {
+			check(c.Hist.Init)
+		}
+	}
+	return out
 }
